@@ -16,7 +16,7 @@ DEFAULT = dict(
     weights=dict(ssink=3, ssinkc=1, csink=2, const=0.3, never=0.2, map=4, mapto=0.5, filter=2, filteropt=0.5,
                  merge=4, orelse=1.5, snapshot=3, snapshot1=0.7, snapshotn=0.5, gate=1, hold=2.5, once=1, updates=1,
                  value=1, mapc=1.5, lift2=2, liftn=0.5, accum=1.5, collect=1, defer=0, split=0, switchs=0, switchc=0,
-                 sloop=0, cloop=0, router=0, holdlazy=0, switchdyn=0, accumlazy=0, collectlazy=0, route=0, switchlate=0, switchlatec=0, snaplazy=0, snapmapc=0, latelisten=0, deepdiamond=0, lift2d=0, handlerlisten=0, latehold=0, lateloop=0, switchnest=0, leafdrop=0, lateswitch=0, lateswitchc=0, ancestormerge=0),
+                 sloop=0, cloop=0, router=0, holdlazy=0, switchdyn=0, accumlazy=0, collectlazy=0, route=0, switchlate=0, switchlatec=0, snaplazy=0, snapmapc=0, latelisten=0, deepdiamond=0, lift2d=0, handlerlisten=0, latehold=0, lateloop=0, switchnest=0, leafdrop=0, lateswitch=0, lateswitchc=0, ancestormerge=0, laterouter=0, switchlatecs=0),
     max_defer=1, leakcheck=False, malformed=False, values=(-5, 15), coalesce_sends=False,
 )
 
@@ -262,6 +262,17 @@ class Gen:
             cs = [self.S() for _ in range(r.randint(2, 3))]
             if any(self.t(x) for x in cs): return False
             n = self.fresh("s"); L.append(f"switchnest {n} {c} {c2} {' '.join(cs)}"); self.add_stream(n, set())
+        elif kind == "laterouter" and s and s2 and not self.t(s) and not self.t(s2):
+            # a router built by a handler; half of the time the handler is downstream of the router's input
+            trig = s
+            if self.r.random() < 0.5:
+                trig = self.fresh("s"); L.append(f"map {trig} {s2} {self.small()}"); self.add_stream(trig, set())
+            L.append(f"laterouter {self.fresh('l')} {trig} {s2} {r.randint(0, 2)} {r.randint(0, 2)}")
+        elif kind == "switchlatecs" and s and s2 and not self.t(s) and not self.t(s2):
+            base = s2
+            if self.r.random() < 0.6 or self.ident.get(s, s) == self.ident.get(s2, s2):
+                base = self.fresh("s"); L.append(f"map {base} {s2} {self.small()}"); self.add_stream(base, set())
+            n = self.fresh("c"); L.append(f"switchlatecs {n} {s} {base} {self.op()}"); self.add_cell(n, set()); self.swc.add(n)
         elif kind == "switchlatec" and s and s2 and not self.t(s) and not self.t(s2):
             # cells built on demand (each on a fresh hold of the base) and switched to inside the transaction that built them
             base = s2
